@@ -253,10 +253,12 @@ def random_shard(seed, n_examples):
     def test(data):
         draw = data.draw
         name, ts = draw(st.sampled_from(cells))
-        r = draw(st.integers(0, 12))
-        b = draw(st.sampled_from([8, 16, 16, 32]))
+        r = draw(st.one_of(st.integers(0, 12), st.integers(0, 12), st.sampled_from([14, 16, 20, 24, 30])))
+        b = draw(st.sampled_from([8, 16, 16, 32])) if r <= 12 else 64
         cfg = {"p": draw(st.sampled_from(sorted(REAL_FIELDS))), "b": b, "r": r, "ignore": False}
-        lim = 1 << (b - 2)
+        # high resolutions: floats n / 2^r whose decimal expansion is far longer than the 17 digits repr() prints; still exact
+        # binary fractions (|n| < 2^40), so the conversion must reproduce n
+        lim = 1 << (b - 2) if r <= 12 else 1 << 40
         reps = st.one_of(st.integers(-40, 40), st.integers(-lim, lim), st.integers(-(1 << r) * 4, (1 << r) * 4),
                          st.sampled_from([0, 1, -1, 1 << r, -(1 << r), (1 << r) + 1, (1 << r) - 1]))
         ints = st.one_of(st.integers(-5, 5), st.integers(-lim >> r, lim >> r))
